@@ -139,7 +139,7 @@ set_option hygiene false in
     `(c + 3) // 4 * 4`, `align(c, 4)`, `cnt = byte_cnt or cnt; return cnt` or `return byte_cnt or cnt`) and compare
     with the model by case split + linear arithmetic.  Expects `hloop` (the loop fact in the current argument order). -/
 macro "gen_eq_finish" : tactic => `(tactic| (
-    simp only [hz, h0, if_false, Bool.false_eq_true, hloop, hbc, pyFloorDiv, Int.zero_add, Int.add_zero, align_four]
+    simp only [hneg, hz, h0, if_false, Bool.false_eq_true, hloop, hbc, pyFloorDiv, Int.zero_add, Int.add_zero, align_four]
     clear hloop
     generalize byteLen v = c at *
     have hfd : ∀ x : Int, Int.fdiv x 4 = x / 4 := fun x => Int.fdiv_eq_ediv_of_nonneg x (by omega)
@@ -155,6 +155,9 @@ theorem getBytesCnt_gen_eq (fuel v : Nat) (a2n : Bool) (bc : Nat) (bcO : Option 
   have h53' : byteLen v < 9007199254740992 := by
     have : (2 : Nat) ^ 53 = 9007199254740992 := by decide
     omega
+  -- the guard `if value < 0: raise SPSDKValueError` (fix 55a6c57) never fires on a natural number
+  have hneg : decide ((v : Int) < 0) = false := by
+    rw [decide_eq_false_iff_not]; omega
   unfold getBytesCntOfInt getBytesCnt
   by_cases h0 : v = 0
   · subst h0
@@ -181,20 +184,10 @@ theorem getBytesCnt_ne_other (v : Nat) (a2n : Bool) (bc : Nat) : liftNat (getByt
   simp only [apply_ite liftNat]
   (repeat' split) <;> simp [liftNat]
 
+/-- fix 55a6c57: a negative value is refused with an SPSDK error BEFORE the loop (which would never end: `while1_neg`) -/
 theorem getBytesCnt_gen_neg (fuel : Nat) (v : Int) (hv : v < 0) (a2n : Bool) (bcO : Option Int) :
-    getBytesCntOfInt fuel v a2n bcO = .error .other := by
-  have hz : (v == 0) = false := by simp; omega
-  first
-  | (refine (fun (hA : NegA getBytesCntOfInt_while1) => ?_) ?_
-     · have hloop : ∀ cnt : Int, getBytesCntOfInt_while1 fuel v cnt = .error .other := fun cnt => hA fuel v cnt hv
-       simp only [getBytesCntOfInt, hz, hloop]
-       simp
-     · unfold NegA; loop_neg_tac)
-  | (refine (fun (hB : NegB getBytesCntOfInt_while1) => ?_) ?_
-     · have hloop : ∀ cnt : Int, getBytesCntOfInt_while1 fuel cnt v = .error .other := fun cnt => hB fuel v cnt hv
-       simp only [getBytesCntOfInt, hz, hloop]
-       simp
-     · unfold NegB; loop_neg_tac)
+    getBytesCntOfInt fuel v a2n bcO = .error .spsdk := by
+  simp [getBytesCntOfInt, hv]
 
 theorem and15 (x : Nat) : x &&& 15 = x % 16 := Nat.and_two_pow_sub_one_eq_mod x 4
 
